@@ -1186,7 +1186,11 @@ def _get_sample_imports(sample: Dict, rpc: wrappers.Method) -> List[str]:
     """Returns sorted sample import statements."""
     module_namespace = ".".join(sample["module_namespace"])
     module_name = sample["module_name"]
-    module_import = f"from {module_namespace} import {module_name}"
+    if module_namespace:
+        module_import = f"from {module_namespace} import {module_name}"
+    else:
+        # A package without namespace is importable by its name alone.
+        module_import = f"import {module_name}"
 
     address = rpc.input.meta.address
     # This checks if the request message is part of the service proto package.
